@@ -288,11 +288,12 @@ class _ActionPrintConfig(Action):
         if hasattr(parser, "print_config") and not print_config_skip.get():
             key = parser.print_config.pop("key")
             subparser = parser.print_config.pop("subparser")
+            dump_kwargs = parser.print_config
+            delattr(parser, "print_config")
             if key is not None:
                 cfg = cfg[key]
             with parser_context(lenient_check=True):
-                sys.stdout.write(subparser.dump(cfg, **parser.print_config))
-            delattr(parser, "print_config")
+                sys.stdout.write(subparser.dump(cfg, **dump_kwargs))
             parser.exit()
 
     @staticmethod
